@@ -1,7 +1,1380 @@
 package interp
 
+// encoding/json over ropes: Marshal prints JSON text (a rope: big integers appear as
+// dec(t) segments, hash values as opaque tokens); Unmarshal parses such ropes back,
+// type-directed by go/types. Custom MarshalJSON/UnmarshalJSON/MarshalText methods of
+// repository types are interpreted.
+
+import (
+	"fmt"
+	"go/types"
+	"reflect"
+	"sort"
+	"strconv"
+	"strings"
+	"time"
+	"unicode/utf8"
+
+	"golang.org/x/tools/go/ssa"
+
+	"symgo/sym"
+)
+
 func registerJSON(in *Interp) {
 	for _, f := range extraRegs {
 		f(in)
 	}
+	in.reg("encoding/json.Marshal", func(th *Thread, fn *ssa.Function, a []Value) Value {
+		it := a[0].(Iface)
+		s, err := th.jsonMarshalTop(it)
+		if err != nil {
+			return Tuple{[]Value(nil), err}
+		}
+		return Tuple{strToBytes(s), Iface{}}
+	})
+	in.reg("encoding/json.MarshalIndent", func(th *Thread, fn *ssa.Function, a []Value) Value {
+		it := a[0].(Iface)
+		th.stub("json.MarshalIndent:no-indent")
+		s, err := th.jsonMarshalTop(it)
+		if err != nil {
+			return Tuple{[]Value(nil), err}
+		}
+		return Tuple{strToBytes(s), Iface{}}
+	})
+	in.reg("encoding/json.Unmarshal", func(th *Thread, fn *ssa.Function, a []Value) Value {
+		return th.jsonUnmarshalTop(bytesToStr(a[0]), a[1].(Iface), false, false)
+	})
+	in.reg("encoding/json.Valid", func(th *Thread, fn *ssa.Function, a []Value) Value {
+		p := &jparser{th: th, segs: ropeOf(bytesToStr(a[0])).Segs}
+		_, err := p.parseTop()
+		return err == ""
+	})
+	// Encoder
+	encT := func() types.Type { return in.Prog.ImportedPackage("encoding/json").Type("Encoder").Type() }
+	in.reg("encoding/json.NewEncoder", func(th *Thread, fn *ssa.Function, a []Value) Value {
+		_ = encT
+		return ptrTo(Native{&jsonEncoder{w: a[0].(Iface)}})
+	})
+	encOf := func(v Value) *jsonEncoder { return (*(v.(*Value))).(Native).X.(*jsonEncoder) }
+	in.reg("(*encoding/json.Encoder).Encode", func(th *Thread, fn *ssa.Function, a []Value) Value {
+		e := encOf(a[0])
+		s, err := th.jsonMarshalTop(a[1].(Iface))
+		if err != nil {
+			return err
+		}
+		s = concatStr(s, "\n")
+		wm := in.methodOf(e.w.T, "Write")
+		if wm == nil {
+			panic(unsupported("json.Encoder: writer %v has no Write", e.w.T))
+		}
+		r := th.call(nil, 0, wm, []Value{e.w.V, strToBytes(s)})
+		if t, ok := r.(Tuple); ok {
+			if ei, ok := t[1].(Iface); ok && ei.T != nil {
+				return ei
+			}
+		}
+		return Iface{}
+	})
+	in.reg("(*encoding/json.Encoder).SetIndent", func(th *Thread, fn *ssa.Function, a []Value) Value { return nil })
+	in.reg("(*encoding/json.Encoder).SetEscapeHTML", func(th *Thread, fn *ssa.Function, a []Value) Value {
+		encOf(a[0]).noHTML = !a[1].(bool)
+		return nil
+	})
+	// Decoder
+	in.reg("encoding/json.NewDecoder", func(th *Thread, fn *ssa.Function, a []Value) Value {
+		return ptrTo(Native{&jsonDecoder{r: a[0].(Iface)}})
+	})
+	decOf := func(v Value) *jsonDecoder { return (*(v.(*Value))).(Native).X.(*jsonDecoder) }
+	in.reg("(*encoding/json.Decoder).UseNumber", func(th *Thread, fn *ssa.Function, a []Value) Value {
+		decOf(a[0]).useNumber = true
+		return nil
+	})
+	in.reg("(*encoding/json.Decoder).DisallowUnknownFields", func(th *Thread, fn *ssa.Function, a []Value) Value {
+		decOf(a[0]).strict = true
+		return nil
+	})
+	in.reg("(*encoding/json.Decoder).Decode", func(th *Thread, fn *ssa.Function, a []Value) Value {
+		d := decOf(a[0])
+		if !d.loaded {
+			d.loaded = true
+			d.data = th.readAll(d.r)
+		}
+		if d.consumed {
+			return th.ioEOF()
+		}
+		d.consumed = true
+		return th.jsonUnmarshalTop(d.data, a[1].(Iface), d.useNumber, d.strict)
+	})
+	in.reg("(encoding/json.Number).String", func(th *Thread, fn *ssa.Function, a []Value) Value { return a[0] })
+	in.reg("(encoding/json.RawMessage).MarshalJSON", func(th *Thread, fn *ssa.Function, a []Value) Value {
+		if a[0].([]Value) == nil {
+			return Tuple{strToBytes("null"), Iface{}}
+		}
+		return Tuple{a[0], Iface{}}
+	})
+	in.reg("(*encoding/json.RawMessage).UnmarshalJSON", func(th *Thread, fn *ssa.Function, a []Value) Value {
+		p := a[0].(*Value)
+		*p = append([]Value(nil), a[1].([]Value)...)
+		return Iface{}
+	})
+	in.reg("io.ReadAll", func(th *Thread, fn *ssa.Function, a []Value) Value {
+		return Tuple{strToBytes(th.readAll(a[0].(Iface))), Iface{}}
+	})
+}
+
+type jsonEncoder struct {
+	w      Iface
+	noHTML bool
+}
+
+type jsonDecoder struct {
+	r         Iface
+	loaded    bool
+	consumed  bool
+	data      Value
+	useNumber bool
+	strict    bool
+}
+
+func (th *Thread) ioEOF() Value {
+	g := th.ex.in.Prog.ImportedPackage("io").Var("EOF")
+	v := *th.ex.in.global(g)
+	if it, ok := v.(Iface); ok && it.T != nil {
+		return it
+	}
+	return th.newError("EOF")
+}
+
+// readAll drains an io.Reader value.
+func (th *Thread) readAll(r Iface) Value {
+	in := th.ex.in
+	if r.T == nil {
+		panic(in.runtimeError("invalid memory address or nil pointer dereference"))
+	}
+	if n, ok := nativeOf(r.V); ok {
+		if br, ok := n.(*BodyReader); ok {
+			d := br.data
+			br.data = ""
+			return d
+		}
+	}
+	rm := in.methodOf(r.T, "Read")
+	if rm == nil {
+		panic(unsupported("readAll: %v has no Read", r.T))
+	}
+	var out Value = ""
+	for i := 0; i < 10000; i++ {
+		buf := make([]Value, 512)
+		for j := range buf {
+			buf[j] = int64(0)
+		}
+		res := th.call(nil, 0, rm, []Value{r.V, buf}).(Tuple)
+		n := int(th.concInt(res[0], "Read n"))
+		if n > 0 {
+			out = concatStr(out, ropeFromBytes(buf[:n]))
+		}
+		if e, ok := res[1].(Iface); ok && e.T != nil {
+			break
+		}
+		if n == 0 {
+			break
+		}
+	}
+	return out
+}
+
+// BodyReader is a native io.ReadCloser over a rope (request bodies built by harnesses).
+type BodyReader struct{ data Value }
+
+func nativeOf(v Value) (interface{}, bool) {
+	p, ok := v.(*Value)
+	if !ok || p == nil {
+		return nil, false
+	}
+	n, ok := (*p).(Native)
+	if !ok {
+		return nil, false
+	}
+	return n.X, true
+}
+
+// ---------- marshal ----------
+
+type jsonField struct {
+	name      string
+	index     []int
+	typ       types.Type
+	omitEmpty bool
+	quoted    bool
+}
+
+func parseTag(tag string) (name string, opts string, skip bool) {
+	st := reflect.StructTag(tag)
+	v, ok := st.Lookup("json")
+	if !ok {
+		return "", "", false
+	}
+	if v == "-" {
+		return "", "", true
+	}
+	if i := strings.Index(v, ","); i >= 0 {
+		return v[:i], v[i+1:], false
+	}
+	return v, "", false
+}
+
+// jsonFields lists the JSON-visible fields of a struct type (embedded structs flattened).
+func (in *Interp) jsonFields(st *types.Struct) []jsonField {
+	var out []jsonField
+	seen := map[string]bool{}
+	var walk func(st *types.Struct, prefix []int)
+	walk = func(st *types.Struct, prefix []int) {
+		var embedded []int
+		for i := 0; i < st.NumFields(); i++ {
+			f := st.Field(i)
+			name, opts, skip := parseTag(st.Tag(i))
+			if skip {
+				continue
+			}
+			idx := append(append([]int(nil), prefix...), i)
+			if f.Embedded() && name == "" {
+				ft := f.Type()
+				if p, ok := ft.Underlying().(*types.Pointer); ok {
+					ft = p.Elem()
+				}
+				if _, ok := ft.Underlying().(*types.Struct); ok && in.opaqueOf(ft) == opNone {
+					if in.methodOf(f.Type(), "MarshalJSON") == nil {
+						embedded = append(embedded, i)
+						continue
+					}
+				}
+			}
+			if !f.Exported() {
+				continue
+			}
+			if name == "" {
+				name = f.Name()
+			}
+			if seen[name] {
+				continue
+			}
+			seen[name] = true
+			out = append(out, jsonField{name: name, index: idx, typ: f.Type(), omitEmpty: strings.Contains(opts, "omitempty"), quoted: strings.Contains(opts, "string")})
+		}
+		for _, i := range embedded {
+			f := st.Field(i)
+			ft := f.Type()
+			if p, ok := ft.Underlying().(*types.Pointer); ok {
+				ft = p.Elem()
+			}
+			walk(ft.Underlying().(*types.Struct), append(append([]int(nil), prefix...), i))
+		}
+	}
+	walk(st, nil)
+	return out
+}
+
+// fieldByIndex follows an index path through (possibly pointer-) embedded structs.
+func fieldByIndex(v Value, index []int) (Value, bool) {
+	cur := v
+	for n, i := range index {
+		if p, ok := cur.(*Value); ok {
+			if p == nil {
+				return nil, false
+			}
+			cur = *p
+		}
+		s, ok := cur.(Struct)
+		if !ok {
+			return nil, false
+		}
+		cur = s[i]
+		_ = n
+	}
+	return cur, true
+}
+
+func (th *Thread) jsonMarshalTop(it Iface) (Value, Value) {
+	var errv Value
+	var out Value
+	func() {
+		defer func() {
+			if r := recover(); r != nil {
+				if je, ok := r.(jsonErr); ok {
+					errv = je.v
+					return
+				}
+				panic(r)
+			}
+		}()
+		if it.T == nil {
+			out = "null"
+			return
+		}
+		out = th.jsonMarshal(it.T, it.V, false)
+	}()
+	return out, errv
+}
+
+type jsonErr struct{ v Value }
+
+func jsonQuote(s string, escapeHTML bool) string {
+	var sb strings.Builder
+	sb.WriteByte('"')
+	for i := 0; i < len(s); {
+		b := s[i]
+		if b < utf8.RuneSelf {
+			switch {
+			case b == '"' || b == '\\':
+				sb.WriteByte('\\')
+				sb.WriteByte(b)
+			case b == '\n':
+				sb.WriteString(`\n`)
+			case b == '\r':
+				sb.WriteString(`\r`)
+			case b == '\t':
+				sb.WriteString(`\t`)
+			case b < 0x20 || (escapeHTML && (b == '<' || b == '>' || b == '&')):
+				sb.WriteString(fmt.Sprintf(`\u%04x`, b))
+			default:
+				sb.WriteByte(b)
+			}
+			i++
+			continue
+		}
+		r, size := utf8.DecodeRuneInString(s[i:])
+		if r == utf8.RuneError && size == 1 {
+			sb.WriteString(`�`)
+			i++
+			continue
+		}
+		if r == ' ' || r == ' ' {
+			sb.WriteString(fmt.Sprintf(`\u%04x`, r))
+			i += size
+			continue
+		}
+		sb.WriteString(s[i : i+size])
+		i += size
+	}
+	sb.WriteByte('"')
+	return sb.String()
+}
+
+// jsonQuoteVal quotes a string value; symbolic bytes are assumed to need no escaping.
+func (th *Thread) jsonQuoteVal(v Value) Value {
+	switch s := v.(type) {
+	case string:
+		return jsonQuote(s, true)
+	case *Rope:
+		segs := []Seg{{S: `"`}}
+		for _, sg := range s.Segs {
+			switch {
+			case sg.B != nil:
+				th.assumePlainByte(sg.B)
+				segs = append(segs, sg)
+			case sg.D != nil, sg.H != nil:
+				segs = append(segs, sg)
+			default:
+				q := jsonQuote(sg.S, true)
+				segs = append(segs, Seg{S: q[1 : len(q)-1]})
+			}
+		}
+		segs = append(segs, Seg{S: `"`})
+		return normRope(&Rope{Segs: segs})
+	}
+	panic("jsonQuoteVal")
+}
+
+// assumePlainByte restricts a symbolic byte to printable ASCII without JSON/HTML specials.
+func (th *Thread) assumePlainByte(b *sym.Term) {
+	c := func(x byte) *sym.Term { return sym.BVConst(uint64(x), 8) }
+	ok := sym.And(sym.BVCmp("bvule", c(0x20), b), sym.BVCmp("bvule", b, c(0x7e)),
+		sym.Not(sym.Eq(b, c('"'))), sym.Not(sym.Eq(b, c('\\'))), sym.Not(sym.Eq(b, c('<'))), sym.Not(sym.Eq(b, c('>'))), sym.Not(sym.Eq(b, c('&'))))
+	th.ex.assume(ok, "json: symbolic string bytes assumed printable ASCII without \" \\ < > &")
+}
+
+func (th *Thread) isEmptyJSON(t types.Type, v Value) bool {
+	switch x := v.(type) {
+	case bool:
+		return !x
+	case int64:
+		return x == 0
+	case float64:
+		return x == 0
+	case string:
+		return x == ""
+	case *Rope:
+		return false
+	case *Value:
+		return x == nil
+	case []Value:
+		return len(x) == 0
+	case *Map:
+		return x == nil || x.Len() == 0
+	case Iface:
+		return x.T == nil
+	case Array:
+		return len(x) == 0
+	case *sym.Term:
+		if x.Sort == sym.SBool {
+			return !th.branch(x)
+		}
+		return th.branch(th.equals(x, int64(0)))
+	}
+	return false
+}
+
+func (th *Thread) callMarshaler(m *ssa.Function, recv Value) Value {
+	r := th.call(nil, 0, m, []Value{recv}).(Tuple)
+	if e, ok := r[1].(Iface); ok && e.T != nil {
+		panic(jsonErr{e})
+	}
+	return bytesToStr(r[0])
+}
+
+func (th *Thread) jsonMarshal(t types.Type, v Value, addressable bool) Value {
+	in := th.ex.in
+	// Marshaler / TextMarshaler on the value's type
+	if _, isIface := t.Underlying().(*types.Interface); !isIface {
+		if p, ok := v.(*Value); ok && p == nil {
+			if _, isPtr := t.Underlying().(*types.Pointer); isPtr {
+				return "null"
+			}
+		}
+		if m := in.methodOf(t, "MarshalJSON"); m != nil && m.Signature.Params().Len() == 0 {
+			return th.callMarshaler(m, v)
+		}
+		if m := in.methodOf(t, "MarshalText"); m != nil && m.Signature.Params().Len() == 0 {
+			return th.jsonQuoteVal(th.callMarshaler(m, v))
+		}
+		// pointer-receiver marshalers on addressable values
+		if _, isPtr := t.Underlying().(*types.Pointer); !isPtr {
+			pt := types.NewPointer(t)
+			if m := in.methodOf(pt, "MarshalJSON"); m != nil && m.Signature.Params().Len() == 0 {
+				return th.callMarshaler(m, ptrTo(v))
+			}
+		}
+	}
+	switch in.opaqueOf(t) {
+	case opTime:
+		b, err := v.(time.Time).MarshalJSON()
+		if err != nil {
+			panic(jsonErr{th.newError(err.Error())})
+		}
+		return string(b)
+	case opBigInt:
+		bv := v.(BigVal)
+		if c, ok := bv.Conc(); ok {
+			return c.String()
+		}
+		return &Rope{Segs: []Seg{{D: bv.T}}}
+	}
+	switch u := t.Underlying().(type) {
+	case *types.Basic:
+		switch {
+		case u.Info()&types.IsBoolean != 0:
+			switch b := v.(type) {
+			case bool:
+				return strconv.FormatBool(b)
+			case *sym.Term:
+				if th.branch(b) {
+					return "true"
+				}
+				return "false"
+			}
+		case u.Info()&types.IsInteger != 0:
+			ii, _ := basicIntInfo(u.Kind())
+			switch i := v.(type) {
+			case int64:
+				if ii.signed {
+					return strconv.FormatInt(i, 10)
+				}
+				return strconv.FormatUint(uint64(i), 10)
+			case *sym.Term:
+				return &Rope{Segs: []Seg{{D: sym.BV2Int(i, ii.signed)}}}
+			}
+		case u.Info()&types.IsFloat != 0:
+			return strconv.FormatFloat(v.(float64), 'g', -1, 64)
+		case u.Info()&types.IsString != 0:
+			return th.jsonQuoteVal(v)
+		}
+	case *types.Pointer:
+		p := v.(*Value)
+		if p == nil {
+			return "null"
+		}
+		return th.jsonMarshal(u.Elem(), *p, true)
+	case *types.Interface:
+		it := v.(Iface)
+		if it.T == nil {
+			return "null"
+		}
+		return th.jsonMarshal(it.T, it.V, false)
+	case *types.Struct:
+		sv, ok := v.(Struct)
+		if !ok {
+			panic(unsupported("json.Marshal of opaque %v", t))
+		}
+		var out Value = "{"
+		first := true
+		for _, f := range in.jsonFields(u) {
+			fv, ok := fieldByIndex(sv, f.index)
+			if !ok {
+				continue
+			}
+			if f.omitEmpty && th.isEmptyJSON(f.typ, fv) {
+				continue
+			}
+			if !first {
+				out = concatStr(out, ",")
+			}
+			first = false
+			out = concatStr(out, jsonQuote(f.name, true)+":")
+			enc := th.jsonMarshal(f.typ, fv, true)
+			if f.quoted {
+				if _, isStr := f.typ.Underlying().(*types.Basic); isStr {
+					enc = concatStr(concatStr(`"`, enc), `"`)
+				}
+			}
+			out = concatStr(out, enc)
+		}
+		return concatStr(out, "}")
+	case *types.Map:
+		mv := v.(*Map)
+		if mv == nil {
+			return "null"
+		}
+		type kv struct {
+			k string
+			v Value
+		}
+		var items []kv
+		for _, e := range mv.entries {
+			if e.deleted {
+				continue
+			}
+			var ks string
+			switch k := e.k.(type) {
+			case string:
+				ks = k
+			case int64:
+				ks = strconv.FormatInt(k, 10)
+			default:
+				if m := in.methodOf(u.Key(), "MarshalText"); m != nil {
+					ks = th.str(th.callMarshaler(m, e.k), "map key")
+				} else {
+					panic(unsupported("json.Marshal: symbolic or unsupported map key %T", e.k))
+				}
+			}
+			items = append(items, kv{ks, e.v})
+		}
+		sort.Slice(items, func(i, j int) bool { return items[i].k < items[j].k })
+		var out Value = "{"
+		for i, it := range items {
+			if i > 0 {
+				out = concatStr(out, ",")
+			}
+			out = concatStr(out, jsonQuote(it.k, true)+":")
+			out = concatStr(out, th.jsonMarshal(u.Elem(), it.v, false))
+		}
+		return concatStr(out, "}")
+	case *types.Slice:
+		sv := v.([]Value)
+		if sv == nil {
+			return "null"
+		}
+		if eb, ok := u.Elem().Underlying().(*types.Basic); ok && eb.Kind() == types.Uint8 {
+			if in.methodOf(u.Elem(), "MarshalJSON") == nil {
+				return th.jsonBytes(sv)
+			}
+		}
+		var out Value = "["
+		for i, e := range sv {
+			if i > 0 {
+				out = concatStr(out, ",")
+			}
+			out = concatStr(out, th.jsonMarshal(u.Elem(), e, true))
+		}
+		return concatStr(out, "]")
+	case *types.Array:
+		av := v.(Array)
+		var out Value = "["
+		for i, e := range av {
+			if i > 0 {
+				out = concatStr(out, ",")
+			}
+			out = concatStr(out, th.jsonMarshal(u.Elem(), e, addressable))
+		}
+		return concatStr(out, "]")
+	}
+	panic(unsupported("json.Marshal of %v (%T)", t, v))
+}
+
+// jsonBytes renders []byte as a base64 string; hash tokens stay opaque.
+func (th *Thread) jsonBytes(bs []Value) Value {
+	if len(bs) > 0 {
+		if tok, ok := bs[0].(*HashToken); ok {
+			return &Rope{Segs: []Seg{{S: `"`}, {H: tok}, {S: `"`}}}
+		}
+	}
+	raw := make([]byte, len(bs))
+	for i, b := range bs {
+		c, ok := b.(int64)
+		if !ok {
+			panic(unsupported("json.Marshal of symbolic []byte"))
+		}
+		raw[i] = byte(c)
+	}
+	return `"` + stdBase64(raw) + `"`
+}
+
+// ---------- parse ----------
+
+type jnode struct {
+	kind  byte // n(ull) t f s(tring) d(number) a o
+	str   Value
+	num   Value // number text (string) or rope with one D
+	elems []*jnode
+	keys  []string
+	raw   Value
+}
+
+type jparser struct {
+	th   *Thread
+	segs []Seg
+	si   int // segment index
+	off  int // offset inside concrete segment
+}
+
+func (p *jparser) peek() (byte, bool, *Seg) {
+	for p.si < len(p.segs) {
+		s := &p.segs[p.si]
+		if s.B != nil || s.D != nil || s.H != nil {
+			return 0, true, s
+		}
+		if p.off < len(s.S) {
+			return s.S[p.off], true, nil
+		}
+		p.si++
+		p.off = 0
+	}
+	return 0, false, nil
+}
+
+func (p *jparser) adv() {
+	s := &p.segs[p.si]
+	if s.B != nil || s.D != nil || s.H != nil {
+		p.si++
+		p.off = 0
+		return
+	}
+	p.off++
+}
+
+func (p *jparser) skipWS() {
+	for {
+		c, ok, sp := p.peek()
+		if !ok || sp != nil {
+			return
+		}
+		if c == ' ' || c == '\t' || c == '\n' || c == '\r' {
+			p.adv()
+			continue
+		}
+		return
+	}
+}
+
+type jpos struct{ si, off int }
+
+func (p *jparser) pos() jpos { return jpos{p.si, p.off} }
+
+func (p *jparser) slice(a, b jpos) Value {
+	r := &Rope{}
+	for i := a.si; i <= b.si && i < len(p.segs); i++ {
+		s := p.segs[i]
+		if s.B != nil || s.D != nil || s.H != nil {
+			if i == b.si {
+				break
+			}
+			r.Segs = append(r.Segs, s)
+			continue
+		}
+		lo, hi := 0, len(s.S)
+		if i == a.si {
+			lo = a.off
+		}
+		if i == b.si {
+			hi = b.off
+		}
+		if lo < hi {
+			r.Segs = append(r.Segs, Seg{S: s.S[lo:hi]})
+		}
+	}
+	return normRope(r)
+}
+
+func (p *jparser) parseTop() (*jnode, string) {
+	p.skipWS()
+	n, err := p.parseValue()
+	if err != "" {
+		return nil, err
+	}
+	p.skipWS()
+	if _, ok, _ := p.peek(); ok {
+		return nil, "invalid character after top-level value"
+	}
+	return n, ""
+}
+
+func (p *jparser) lit(word string) bool {
+	save := p.pos()
+	for i := 0; i < len(word); i++ {
+		c, ok, sp := p.peek()
+		if !ok || sp != nil || c != word[i] {
+			p.si, p.off = save.si, save.off
+			return false
+		}
+		p.adv()
+	}
+	return true
+}
+
+func (p *jparser) parseValue() (*jnode, string) {
+	start := p.pos()
+	c, ok, sp := p.peek()
+	if !ok {
+		return nil, "unexpected end of JSON input"
+	}
+	finish := func(n *jnode) (*jnode, string) {
+		n.raw = p.slice(start, p.pos())
+		return n, ""
+	}
+	if sp != nil {
+		if sp.D != nil {
+			p.adv()
+			return finish(&jnode{kind: 'd', num: &Rope{Segs: []Seg{*sp}}})
+		}
+		return nil, "invalid character (symbolic) looking for beginning of value"
+	}
+	switch {
+	case c == 'n':
+		if p.lit("null") {
+			return finish(&jnode{kind: 'n'})
+		}
+	case c == 't':
+		if p.lit("true") {
+			return finish(&jnode{kind: 't'})
+		}
+	case c == 'f':
+		if p.lit("false") {
+			return finish(&jnode{kind: 'f'})
+		}
+	case c == '"':
+		s, err := p.parseString()
+		if err != "" {
+			return nil, err
+		}
+		return finish(&jnode{kind: 's', str: s})
+	case c == '-' || (c >= '0' && c <= '9'):
+		var sb strings.Builder
+		for {
+			c, ok, sp := p.peek()
+			if !ok || sp != nil {
+				break
+			}
+			if (c >= '0' && c <= '9') || c == '-' || c == '+' || c == '.' || c == 'e' || c == 'E' {
+				sb.WriteByte(c)
+				p.adv()
+				continue
+			}
+			break
+		}
+		txt := sb.String()
+		if !validJSONNumber(txt) {
+			return nil, "invalid number literal " + txt
+		}
+		return finish(&jnode{kind: 'd', num: txt})
+	case c == '[':
+		p.adv()
+		n := &jnode{kind: 'a'}
+		p.skipWS()
+		if c, ok, sp := p.peek(); ok && sp == nil && c == ']' {
+			p.adv()
+			return finish(n)
+		}
+		for {
+			p.skipWS()
+			e, err := p.parseValue()
+			if err != "" {
+				return nil, err
+			}
+			n.elems = append(n.elems, e)
+			p.skipWS()
+			c, ok, sp := p.peek()
+			if !ok || sp != nil {
+				return nil, "unexpected end of JSON input"
+			}
+			p.adv()
+			if c == ',' {
+				continue
+			}
+			if c == ']' {
+				return finish(n)
+			}
+			return nil, "invalid character after array element"
+		}
+	case c == '{':
+		p.adv()
+		n := &jnode{kind: 'o'}
+		p.skipWS()
+		if c, ok, sp := p.peek(); ok && sp == nil && c == '}' {
+			p.adv()
+			return finish(n)
+		}
+		for {
+			p.skipWS()
+			c, ok, sp := p.peek()
+			if !ok || sp != nil || c != '"' {
+				return nil, "invalid character looking for beginning of object key string"
+			}
+			k, err := p.parseString()
+			if err != "" {
+				return nil, err
+			}
+			ks, isConc := k.(string)
+			if !isConc {
+				panic(unsupported("json: symbolic object key"))
+			}
+			p.skipWS()
+			c, ok, sp = p.peek()
+			if !ok || sp != nil || c != ':' {
+				return nil, "invalid character after object key"
+			}
+			p.adv()
+			p.skipWS()
+			e, err := p.parseValue()
+			if err != "" {
+				return nil, err
+			}
+			n.keys = append(n.keys, ks)
+			n.elems = append(n.elems, e)
+			p.skipWS()
+			c, ok, sp = p.peek()
+			if !ok || sp != nil {
+				return nil, "unexpected end of JSON input"
+			}
+			p.adv()
+			if c == ',' {
+				continue
+			}
+			if c == '}' {
+				return finish(n)
+			}
+			return nil, "invalid character after object key:value pair"
+		}
+	}
+	return nil, fmt.Sprintf("invalid character %q looking for beginning of value", string(c))
+}
+
+func validJSONNumber(s string) bool {
+	if s == "" {
+		return false
+	}
+	i := 0
+	if s[i] == '-' {
+		i++
+		if i == len(s) {
+			return false
+		}
+	}
+	switch {
+	case s[i] == '0':
+		i++
+	case s[i] >= '1' && s[i] <= '9':
+		for i < len(s) && s[i] >= '0' && s[i] <= '9' {
+			i++
+		}
+	default:
+		return false
+	}
+	if i < len(s) && s[i] == '.' {
+		i++
+		if i == len(s) || s[i] < '0' || s[i] > '9' {
+			return false
+		}
+		for i < len(s) && s[i] >= '0' && s[i] <= '9' {
+			i++
+		}
+	}
+	if i < len(s) && (s[i] == 'e' || s[i] == 'E') {
+		i++
+		if i < len(s) && (s[i] == '+' || s[i] == '-') {
+			i++
+		}
+		if i == len(s) || s[i] < '0' || s[i] > '9' {
+			return false
+		}
+		for i < len(s) && s[i] >= '0' && s[i] <= '9' {
+			i++
+		}
+	}
+	return i == len(s)
+}
+
+func (p *jparser) parseString() (Value, string) {
+	p.adv() // opening quote
+	out := &Rope{}
+	var sb strings.Builder
+	flush := func() {
+		if sb.Len() > 0 {
+			out.Segs = append(out.Segs, Seg{S: sb.String()})
+			sb.Reset()
+		}
+	}
+	for {
+		c, ok, sp := p.peek()
+		if !ok {
+			return nil, "unexpected end of JSON input"
+		}
+		if sp != nil {
+			flush()
+			if sp.B != nil {
+				p.th.assumePlainByte(sp.B)
+			}
+			out.Segs = append(out.Segs, *sp)
+			p.adv()
+			continue
+		}
+		p.adv()
+		switch {
+		case c == '"':
+			flush()
+			return normRope(out), ""
+		case c == '\\':
+			e, ok, sp := p.peek()
+			if !ok || sp != nil {
+				return nil, "invalid escape"
+			}
+			p.adv()
+			switch e {
+			case '"', '\\', '/':
+				sb.WriteByte(e)
+			case 'b':
+				sb.WriteByte('\b')
+			case 'f':
+				sb.WriteByte('\f')
+			case 'n':
+				sb.WriteByte('\n')
+			case 'r':
+				sb.WriteByte('\r')
+			case 't':
+				sb.WriteByte('\t')
+			case 'u':
+				var hex [4]byte
+				for i := 0; i < 4; i++ {
+					h, ok, sp := p.peek()
+					if !ok || sp != nil {
+						return nil, "invalid \\u escape"
+					}
+					hex[i] = h
+					p.adv()
+				}
+				r, err := strconv.ParseUint(string(hex[:]), 16, 32)
+				if err != nil {
+					return nil, "invalid \\u escape"
+				}
+				sb.WriteRune(rune(r))
+			default:
+				return nil, "invalid escape character"
+			}
+		case c < 0x20:
+			return nil, "invalid character in string literal"
+		default:
+			sb.WriteByte(c)
+		}
+	}
+}
+
+// ---------- decode ----------
+
+func (th *Thread) jsonUnmarshalTop(data Value, target Iface, useNumber, strict bool) Value {
+	in := th.ex.in
+	p := &jparser{th: th, segs: ropeOf(data).Segs}
+	n, perr := p.parseTop()
+	if perr != "" {
+		return th.jsonSyntaxError(perr)
+	}
+	if target.T == nil {
+		return th.newError("json: Unmarshal(nil)")
+	}
+	pt, ok := target.T.Underlying().(*types.Pointer)
+	tp, _ := target.V.(*Value)
+	if !ok || tp == nil {
+		return th.newError("json: Unmarshal(non-pointer " + target.T.String() + ")")
+	}
+	d := &jdecoder{th: th, useNumber: useNumber, strict: strict}
+	var errv Value = Iface{}
+	func() {
+		defer func() {
+			if r := recover(); r != nil {
+				if je, ok := r.(jsonErr); ok {
+					errv = je.v
+					return
+				}
+				panic(r)
+			}
+		}()
+		d.decode(pt.Elem(), n, tp)
+	}()
+	if d.firstErr != nil {
+		if e, ok := errv.(Iface); ok && e.T == nil {
+			return d.firstErr
+		}
+	}
+	_ = in
+	return errv
+}
+
+func (th *Thread) jsonSyntaxError(msg string) Value {
+	in := th.ex.in
+	th.stub("json:SyntaxError")
+	if p := in.Prog.ImportedPackage("encoding/json"); p != nil {
+		if t := p.Type("SyntaxError"); t != nil {
+			// struct{msg string; Offset int64}
+			return Iface{T: types.NewPointer(t.Type()), V: ptrTo(Struct{msg, int64(0)})}
+		}
+	}
+	return th.newError(msg)
+}
+
+type jdecoder struct {
+	th        *Thread
+	useNumber bool
+	strict    bool
+	firstErr  Value
+}
+
+func (d *jdecoder) typeErr(n *jnode, t types.Type) {
+	kind := map[byte]string{'n': "null", 't': "bool", 'f': "bool", 's': "string", 'd': "number", 'a': "array", 'o': "object"}[n.kind]
+	if d.firstErr == nil {
+		d.firstErr = d.th.newError("json: cannot unmarshal " + kind + " into Go value of type " + types.TypeString(t, func(p *types.Package) string { return p.Name() }))
+	}
+}
+
+func (d *jdecoder) decode(t types.Type, n *jnode, dst *Value) {
+	th := d.th
+	in := th.ex.in
+	// Unmarshaler on *T
+	if _, isIface := t.Underlying().(*types.Interface); !isIface {
+		pt := types.NewPointer(t)
+		if _, isPtr := t.Underlying().(*types.Pointer); isPtr {
+			// T itself is a pointer type: allocate and let the element type handle it
+			if n.kind == 'n' {
+				*dst = (*Value)(nil)
+				return
+			}
+			el := t.Underlying().(*types.Pointer).Elem()
+			cur, _ := (*dst).(*Value)
+			if cur == nil {
+				cur = ptrTo(in.zero(el))
+				*dst = cur
+			}
+			d.decode(el, n, cur)
+			return
+		}
+		if m := in.methodOf(pt, "UnmarshalJSON"); m != nil && m.Signature.Params().Len() == 1 {
+			r := th.call(nil, 0, m, []Value{dst, strToBytes(n.raw)})
+			if e, ok := r.(Iface); ok && e.T != nil {
+				panic(jsonErr{e})
+			}
+			return
+		}
+		if n.kind == 's' {
+			if m := in.methodOf(pt, "UnmarshalText"); m != nil && m.Signature.Params().Len() == 1 {
+				r := th.call(nil, 0, m, []Value{dst, strToBytes(n.str)})
+				if e, ok := r.(Iface); ok && e.T != nil {
+					panic(jsonErr{e})
+				}
+				return
+			}
+		}
+	}
+	if n.kind == 'n' {
+		switch t.Underlying().(type) {
+		case *types.Interface, *types.Map, *types.Slice:
+			*dst = in.zero(t)
+		}
+		return
+	}
+	switch in.opaqueOf(t) {
+	case opTime:
+		var tm time.Time
+		if err := tm.UnmarshalJSON([]byte(th.str(n.raw, "time json"))); err != nil {
+			panic(jsonErr{th.newError(err.Error())})
+		}
+		*dst = tm
+		return
+	case opBigInt:
+		if n.kind != 'd' {
+			d.typeErr(n, t)
+			return
+		}
+		switch x := n.num.(type) {
+		case string:
+			v, ok := parseBigDec(x)
+			if !ok {
+				d.typeErr(n, t)
+				return
+			}
+			*dst = BigVal{C: v}
+		case *Rope:
+			*dst = BigVal{T: x.Segs[0].D}
+		}
+		return
+	}
+	switch u := t.Underlying().(type) {
+	case *types.Interface:
+		if u.NumMethods() > 0 {
+			d.typeErr(n, t)
+			return
+		}
+		*dst = d.generic(n)
+	case *types.Basic:
+		switch {
+		case u.Info()&types.IsBoolean != 0:
+			if n.kind != 't' && n.kind != 'f' {
+				d.typeErr(n, t)
+				return
+			}
+			*dst = n.kind == 't'
+		case u.Info()&types.IsString != 0:
+			if n.kind != 's' {
+				d.typeErr(n, t)
+				return
+			}
+			*dst = n.str
+		case u.Info()&types.IsInteger != 0:
+			if n.kind != 'd' {
+				d.typeErr(n, t)
+				return
+			}
+			ii, _ := basicIntInfo(u.Kind())
+			switch x := n.num.(type) {
+			case string:
+				if ii.signed {
+					v, err := strconv.ParseInt(x, 10, ii.w)
+					if err != nil {
+						d.typeErr(n, t)
+						return
+					}
+					*dst = v
+				} else {
+					v, err := strconv.ParseUint(x, 10, ii.w)
+					if err != nil {
+						d.typeErr(n, t)
+						return
+					}
+					*dst = normInt(int64(v), ii)
+				}
+			case *Rope:
+				// symbolic integer: in range or error
+				term := x.Segs[0].D
+				lo, hi := intRange(ii)
+				if th.branch(fromBoolTerm(sym.And(sym.ILe(sym.IntConst(lo), term), sym.ILe(term, sym.IntConst(hi))))) {
+					*dst = fromBV(sym.Int2BV(term, ii.w), ii)
+				} else {
+					d.typeErr(n, t)
+				}
+			}
+		case u.Info()&types.IsFloat != 0:
+			if n.kind != 'd' {
+				d.typeErr(n, t)
+				return
+			}
+			f, err := strconv.ParseFloat(th.str(n.num, "float"), 64)
+			if err != nil {
+				d.typeErr(n, t)
+				return
+			}
+			*dst = f
+		}
+	case *types.Struct:
+		if n.kind != 'o' {
+			d.typeErr(n, t)
+			return
+		}
+		sv, ok := (*dst).(Struct)
+		if !ok {
+			panic(unsupported("json decode into opaque struct %v", t))
+		}
+		fields := in.jsonFields(u)
+		for i, k := range n.keys {
+			var f *jsonField
+			for fi := range fields {
+				if fields[fi].name == k {
+					f = &fields[fi]
+					break
+				}
+			}
+			if f == nil {
+				for fi := range fields {
+					if strings.EqualFold(fields[fi].name, k) {
+						f = &fields[fi]
+						break
+					}
+				}
+			}
+			if f == nil {
+				if d.strict {
+					panic(jsonErr{th.newError(fmt.Sprintf("json: unknown field %q", k))})
+				}
+				continue
+			}
+			slot := d.fieldSlot(u, sv, f.index)
+			if slot == nil {
+				continue
+			}
+			d.decode(f.typ, n.elems[i], slot)
+		}
+	case *types.Map:
+		if n.kind != 'o' {
+			d.typeErr(n, t)
+			return
+		}
+		m, _ := (*dst).(*Map)
+		if m == nil {
+			m = newMap()
+			*dst = m
+		}
+		for i, k := range n.keys {
+			var kv Value = k
+			if kb, ok := u.Key().Underlying().(*types.Basic); ok && kb.Info()&types.IsInteger != 0 {
+				iv, err := strconv.ParseInt(k, 10, 64)
+				if err != nil {
+					d.typeErr(n, t)
+					continue
+				}
+				kv = iv
+			}
+			cell := new(Value)
+			*cell = in.zero(u.Elem())
+			d.decode(u.Elem(), n.elems[i], cell)
+			th.mapUpdate(m, kv, *cell)
+		}
+	case *types.Slice:
+		if eb, ok := u.Elem().Underlying().(*types.Basic); ok && eb.Kind() == types.Uint8 && n.kind == 's' {
+			*dst = d.decodeBytes(n.str)
+			return
+		}
+		if n.kind != 'a' {
+			d.typeErr(n, t)
+			return
+		}
+		out := make([]Value, len(n.elems))
+		for i, e := range n.elems {
+			out[i] = in.zero(u.Elem())
+			d.decode(u.Elem(), e, &out[i])
+		}
+		*dst = out
+	case *types.Array:
+		if n.kind != 'a' {
+			d.typeErr(n, t)
+			return
+		}
+		av := (*dst).(Array)
+		for i, e := range n.elems {
+			if i < len(av) {
+				d.decode(u.Elem(), e, &av[i])
+			}
+		}
+	default:
+		panic(unsupported("json decode into %v", t))
+	}
+}
+
+func intRange(ii intInfo) (lo, hi *bigInt) {
+	one := newBig(1)
+	if ii.signed {
+		h := new(bigInt).Lsh(one, uint(ii.w-1))
+		return new(bigInt).Neg(h), new(bigInt).Sub(h, one)
+	}
+	return newBig(0), new(bigInt).Sub(new(bigInt).Lsh(one, uint(ii.w)), one)
+}
+
+// fieldSlot returns the address of the field at index path, allocating embedded pointers.
+func (d *jdecoder) fieldSlot(st *types.Struct, sv Struct, index []int) *Value {
+	in := d.th.ex.in
+	cur := sv
+	curT := st
+	for n, i := range index {
+		if n == len(index)-1 {
+			return &cur[i]
+		}
+		ft := curT.Field(i).Type()
+		if p, ok := ft.Underlying().(*types.Pointer); ok {
+			pv, _ := cur[i].(*Value)
+			if pv == nil {
+				pv = ptrTo(in.zero(p.Elem()))
+				cur[i] = pv
+			}
+			cur = (*pv).(Struct)
+			curT = p.Elem().Underlying().(*types.Struct)
+		} else {
+			cur = cur[i].(Struct)
+			curT = ft.Underlying().(*types.Struct)
+		}
+	}
+	return nil
+}
+
+func (d *jdecoder) decodeBytes(s Value) Value {
+	if r, ok := s.(*Rope); ok {
+		if len(r.Segs) == 1 && r.Segs[0].H != nil {
+			return r.Segs[0].H.bytes()
+		}
+		panic(unsupported("json: base64 decode of symbolic string"))
+	}
+	b, err := stdBase64Decode(s.(string))
+	if err != nil {
+		panic(jsonErr{d.th.newError(err.Error())})
+	}
+	return strToBytes(string(b))
+}
+
+// generic decodes into interface{}.
+func (d *jdecoder) generic(n *jnode) Value {
+	in := d.th.ex.in
+	anyT := types.NewInterfaceType(nil, nil)
+	switch n.kind {
+	case 'n':
+		return Iface{}
+	case 't', 'f':
+		return Iface{T: types.Typ[types.Bool], V: n.kind == 't'}
+	case 's':
+		return Iface{T: types.Typ[types.String], V: n.str}
+	case 'd':
+		if d.useNumber {
+			nt := in.Prog.ImportedPackage("encoding/json").Type("Number").Type()
+			return Iface{T: nt, V: n.num}
+		}
+		if r, ok := n.num.(*Rope); ok {
+			panic(unsupported("json: symbolic number %v into float64", r))
+		}
+		f, _ := strconv.ParseFloat(n.num.(string), 64)
+		return Iface{T: types.Typ[types.Float64], V: f}
+	case 'a':
+		out := make([]Value, len(n.elems))
+		for i, e := range n.elems {
+			out[i] = d.generic(e)
+		}
+		return Iface{T: types.NewSlice(anyT), V: out}
+	case 'o':
+		m := newMap()
+		for i, k := range n.keys {
+			d.th.mapUpdate(m, k, d.generic(n.elems[i]))
+		}
+		return Iface{T: types.NewMap(types.Typ[types.String], anyT), V: m}
+	}
+	panic("generic")
 }
